@@ -35,6 +35,62 @@ class SchedulerError(Exception):
     pass
 
 
+_REAL_LOCK, _REAL_RLOCK = threading.Lock, threading.RLock
+CURRENT = {"replay": None}
+
+
+class PkgLock:
+    """What threading.Lock() / RLock() return while the pose_format package is being imported by this check: the same mutual
+    exclusion (a real lock inside), but a REPLAY WORKER that finds it held hands the baton back instead of blocking inside C -
+    whatever locks the library creates (module level, class level, in decorators), a schedule can always be played to its end."""
+
+    def __init__(self, real):
+        self.real = real
+
+    def acquire(self, blocking=True, timeout=-1):
+        rp = CURRENT["replay"]
+        t = getattr(rp.local, "tid", None) if rp is not None else None
+        if t is None or not blocking:
+            return self.real.acquire(blocking, timeout)
+        while not self.real.acquire(False):
+            rp.park(t)
+        return True
+
+    def release(self):
+        self.real.release()
+
+    def __enter__(self):
+        return self.acquire()
+
+    def __exit__(self, *a):
+        self.release()
+
+    def locked(self):
+        return self.real.locked() if hasattr(self.real, "locked") else False
+
+
+class PkgLocks:
+    """context manager: locks created inside are PkgLocks"""
+
+    def __enter__(self):
+        threading.Lock = lambda: PkgLock(_REAL_LOCK())
+        threading.RLock = lambda: PkgLock(_REAL_RLOCK())
+        return self
+
+    def __exit__(self, *a):
+        threading.Lock, threading.RLock = _REAL_LOCK, _REAL_RLOCK
+
+
+def import_package_with_cooperative_locks():
+    """(re-)import pose_format so that every lock it creates at import time is a PkgLock"""
+    for k in [k for k in sys.modules if k == "pose_format" or k.startswith("pose_format.")]:
+        del sys.modules[k]
+    with PkgLocks():
+        import pose_format                                      # noqa: F401
+        import pose_format.pose, pose_format.pose_header, pose_format.pose_body, pose_format.utils.reader      # noqa: F401
+        import pose_format.numpy.pose_body                      # noqa: F401
+
+
 class CoopLock:
     """Stands in for PoseHeaderCache.<lock> during a replay: same mutual exclusion (it uses the real lock), but a
     thread that finds it held hands the baton back instead of blocking inside C (one schedule entry = one failed try)."""
@@ -129,6 +185,13 @@ class Replay:
             self.cv.notify_all()
 
     def run(self, fns, sched):
+        CURRENT["replay"] = self
+        try:
+            return self._run(fns, sched)
+        finally:
+            CURRENT["replay"] = None
+
+    def _run(self, fns, sched):
         ths = [threading.Thread(target=self.worker, args=(i, f), daemon=True) for i, f in enumerate(fns)]
         for th in ths:
             th.start()
@@ -199,6 +262,13 @@ class LineReplay(Replay):
         return glob
 
     def run(self, fns):
+        CURRENT["replay"] = self
+        try:
+            return self._run1(fns)
+        finally:
+            CURRENT["replay"] = None
+
+    def _run1(self, fns):
         ths = [threading.Thread(target=self.worker, args=(i, f), daemon=True) for i, f in enumerate(fns)]
         for th in ths:
             th.start()
@@ -290,7 +360,8 @@ class C18(common.Prop):
             "steps); distinct by content hash")
     TRUSTED = ["Coq 8.16.1 kernel (vm_compute for the refutation witnesses)", "harness/translate_c18.py (fail-closed ast translator)",
                "extraction: ExtrOcamlBasic only; runner/driver.ml",
-               "harness/c18.py replay scheduler (sys.settrace + baton, CoopLock wrapper around the real lock)"]
+               "harness/c18.py replay scheduler (sys.settrace + baton; the package is imported with threading.Lock / RLock replaced by a cooperative wrapper "
+               "around a real lock, so a replay worker that finds ANY library lock held yields instead of blocking)"]
     ASSUMPTIONS = ["hashlib.md5 is injective on the compared header slices (the model's hash is the slice)",
                    "CPython executes one thread at a time (GIL) and each attribute load/store of a class attribute is atomic",
                    "CPython may switch threads between bytecodes; the multi-preemption replay scheduler switches at line events, the "
@@ -316,6 +387,7 @@ class C18(common.Prop):
         return ["gen/Gen_C18.v"]
 
     def setup(self):
+        import_package_with_cooperative_locks()
         from pose_format import Pose
         from pose_format.pose_header import PoseHeader, PoseHeaderCache
         self.Pose, self.PoseHeader, self.Cache = Pose, PoseHeader, PoseHeaderCache
@@ -424,8 +496,9 @@ class C18(common.Prop):
             for k in self.saved:
                 del sys.modules[k]
             try:
-                from pose_format import Pose as P2
-                from pose_format.pose_header import PoseHeaderCache as C2
+                with PkgLocks():
+                    from pose_format import Pose as P2
+                    from pose_format.pose_header import PoseHeaderCache as C2
                 p.Pose, p.Cache = P2, C2
             except Exception:
                 self.__exit__()
